@@ -175,7 +175,7 @@ def reportArgs (args : List (List Nat)) : List Nat :=
 /-- builtin_string.go:247-267: arguments of a function replacer for one match (as Go strings) -/
 def replacerArgs (target : List Nat) (mt : Caps) : List (List Nat) :=
   (mt.map fun o => match o with | some (a, b) => slice target a b | none => [85]) ++
-  [decDigits (Str.decodeRunes (target.take (capStart mt))).length, target]
+  [decDigits (utf16Length (target.take (capStart mt))), target]
 
 /-- the loop of builtin_string.go:247 / :271 -/
 def replaceLoop (target : List Nat) (f : Caps → List Nat) : List Caps → Nat → List Nat → List Nat × Nat
